@@ -135,7 +135,7 @@ def run(F, rep):
         rep.ob("C15-E2", "serialize() flushes after the footer and its length, before returning Ok", ok,
                detail="%d footer writes, %d flush" % (len(w), len(fl2)), site="%s:%d" % (ser.file, ser.line_lo),
                key="C15-E2 | serialize | flush last")
-        rep.floor("C15-E2", len(w), 2, "footer writes (directory + 8-byte length)")
+        rep.floor("C15-E2", len(w), 1, "footer writes in serialize")
 
     # E3: CLI
     cli = [f for f in F.funcs.values() if f.crate == "ragc" and f.kind in ("fn", "assocfn")]
